@@ -187,6 +187,30 @@ fn generic_faults(spec: &str, world: &World, rng: &mut Rng) -> Vec<(String, Faul
       },
     ),
     (
+      // the honest bytes (so a verifying loader accepts them) under another
+      // final specifier
+      "same-content-other-final".into(),
+      Fault::Module {
+        content: match world.remote.get(u.as_str()) {
+          Some(Resp::Module { content, .. }) => content.clone(),
+          _ => b"export const z = 1;".to_vec(),
+        },
+        headers: vec![],
+        final_spec: Some(other.clone()),
+      },
+    ),
+    (
+      "same-content-final-elsewhere".into(),
+      Fault::Module {
+        content: match world.remote.get(u.as_str()) {
+          Some(Resp::Module { content, .. }) => content.clone(),
+          _ => b"export const z = 1;".to_vec(),
+        },
+        headers: vec![],
+        final_spec: Some(sibling.clone()),
+      },
+    ),
+    (
       "module-final-in-registry".into(),
       Fault::Module {
         content: b"import 'jsr:@s/q@1'; export const z = 1;".to_vec(),
@@ -327,6 +351,74 @@ fn check_faulted(
         acc.violation(
           format!("unfinished-entry/{}", kinds_at(pending_spec.as_deref())),
           "serialised graph reports a pending module load that never completed",
+          w(json!({})),
+        );
+      }
+    }
+  }
+  // a deferred content load of a registry file (embedded module info) that
+  // was answered elsewhere - another final specifier, a redirect - must end
+  // as an error entry for the requested file
+  if is_registry {
+    for (k, f) in faults {
+      let is_content_load = k.cache_setting == "use"
+        && !k.ensure_cached
+        && k.specifier.starts_with("https://jsr.io/")
+        && !k.specifier.ends_with("meta.json")
+        && base.log.iter().any(|e| e.specifier == k.specifier && e.cache_setting == "only");
+      let elsewhere = matches!(f, Fault::Module { final_spec: Some(_), .. } | Fault::Redirect(_));
+      if is_content_load && faulted.delivered.contains(k) {
+        acc.count("faults_delivered_on_deferred_registry_content_loads");
+        if elsewhere {
+          acc.count("deferred_registry_content_loads_answered_elsewhere");
+          let is_err = g.try_get(&url(&k.specifier)).is_err();
+          // (a cache-busting restart may have loaded the file again, honestly)
+          let served_later = {
+            let prefix = format!("module:{}:", url(&k.specifier));
+            faulted.log.iter().any(|e| e.answer.starts_with(prefix.as_str()))
+          };
+          // (or the restarted pass no longer contains the file at all)
+          let is_module = matches!(g.try_get(&url(&k.specifier)), Ok(Some(m)) if m.specifier().as_str() == url(&k.specifier).as_str());
+          let _ = is_err;
+          if is_module && !served_later {
+            acc.violation(
+              format!("deferred-content-load-answered-elsewhere-but-no-error-entry/{}", kinds_at(Some(k.specifier.as_str()))),
+              format!("{}: the content load was answered under another specifier, the entry is {:?}", k.specifier, g.try_get(&url(&k.specifier)).map(|m| m.map(|m| m.specifier().to_string())).map_err(|e| e.to_string())),
+              w(json!({"faulted_log": faulted.log.iter().map(|e| format!("{} {} -> {}", e.cache_setting, e.specifier, e.answer.chars().take(90).collect::<String>())).collect::<Vec<_>>(),
+                "text_len": g.get(&url(&k.specifier)).and_then(|m| m.source()).map(|s| s.len())})),
+            );
+          }
+        }
+      }
+    }
+  }
+  // a registry module's text is what the loader served for it (a module whose
+  // content arrives by a deferred load must not keep its placeholder)
+  if is_registry {
+    for m in g.modules() {
+      let deno_graph::Module::Js(js) = m else { continue };
+      if !js.specifier.as_str().starts_with("https://jsr.io/") || js.source.text.contains('\u{FFFD}') {
+        continue;
+      }
+      let prefix = format!("module:{}:", js.specifier);
+      let served: Vec<&str> = faulted.log.iter().filter_map(|e| e.answer.strip_prefix(prefix.as_str())).collect();
+      if served.is_empty() {
+        // a module of the graph for which the loader never supplied content
+        // (a placeholder from embedded module info whose content load went
+        // elsewhere must end as an error entry)
+        acc.violation(
+          format!("registry-module-without-served-content/{}", kinds_at(Some(js.specifier.as_str()))),
+          format!("{} is a module of the graph but no loader answer carries content for it", js.specifier),
+          w(json!({})),
+        );
+        continue;
+      }
+      acc.count("registry_module_texts_checked_against_served_bytes");
+      let h = sha256_hex(js.source.text.as_bytes());
+      if !served.iter().any(|s| *s == h) {
+        acc.violation(
+          format!("registry-module-text-not-served-by-the-loader/{}", kinds_at(Some(js.specifier.as_str()))),
+          format!("{} has a {}-byte text that no answer of the loader for it contains", js.specifier, js.source.text.len()),
           w(json!({})),
         );
       }
@@ -605,6 +697,12 @@ fn one_world(i: usize, seed: u64, tier: Tier, acc: &mut Acc, registry: bool) {
   let (aw, world, ctx) = if registry {
     let mut rw = gen_reg_world(&mut rng);
     rw.reload_only_versions.clear();
+    if rng.chance(1, 3) {
+      // version manifests that embed module information: package files are
+      // then represented by a placeholder and filled by a deferred content
+      // load (another place where faults can strike)
+      crate::c13::embed_module_graphs(&mut rw, rng.chance(1, 4));
+    }
     let world = rw.to_world();
     let ctx = json!({"registry_world": rw.to_json()});
     (AnyWorld::R(rw), world, ctx)
@@ -631,6 +729,13 @@ fn one_world(i: usize, seed: u64, tier: Tier, acc: &mut Acc, registry: bool) {
       return;
     }
   };
+  {
+    let probes = base.log.iter().filter(|e| e.cache_setting == "only" && !e.specifier.ends_with("meta.json")).count();
+    if probes > 0 {
+      acc.count("worlds_with_deferred_registry_content_loads");
+      acc.count_n("registry_file_cache_probes", probes as u64);
+    }
+  }
   npm_faults(acc, &aw, &world, kind, &ctx);
   // call identities of the fault-free trace
   let mut occ: BTreeMap<(String, &'static str, bool), u32> = BTreeMap::new();
